@@ -81,7 +81,11 @@ class GPath:
     @property
     def parent(self):
         if self._parent is None:
-            head = self._s.rpartition('/')[0]
+            head, sep, tail = self._s.rpartition('/')
+            if sep == '':
+                return GPath('.')       # a bare name: pathlib's parent is '.'
+            if head == '':
+                return GPath('/')
             return GPath(head)
         return self._parent
 
@@ -114,4 +118,8 @@ class GPath:
 def _join(parent, name):
     if name.startswith('/'):
         return GPath(name)
+    if parent._s == '.':
+        return GPath(name, parent, name)        # pathlib drops the '.' component
+    if parent._s == '/':
+        return GPath('/' + name, parent, name)
     return GPath(parent._s + '/' + name, parent, name)
